@@ -642,6 +642,73 @@ func c19GenerateTies(r *Rand) *c19Doc {
 	return &c19Doc{Text: sb.String(), Mode: "ties"}
 }
 
+// c19GenerateDupPointers builds a document in which two or three INDI records share a pointer
+// (same and different names, living and dead, also records without pointer), referenced from a
+// family, sometimes with duplicate FAM pointers too.  Decodable input: the pages and links must not
+// depend on which of the records a map hands out first.
+func c19GenerateDupPointers(r *Rand, nowYear int) *c19Doc {
+	var sb strings.Builder
+	line := func(level int, rest string) { fmt.Fprintf(&sb, "%d %s\n", level, rest) }
+	line(0, "HEAD")
+	names := []string{"John /Smith/", "Ann /Town/", "John /Smith/", "Old /Town/", "Bob /Jones/"}
+	indi := func(ptr, name string, alive bool) {
+		if ptr == "" {
+			line(0, "INDI")
+		} else {
+			line(0, "@"+ptr+"@ INDI")
+		}
+		line(1, "NAME "+name)
+		line(1, "BIRT")
+		if alive {
+			line(2, fmt.Sprintf("DATE 3 Mar %d", nowYear-20))
+		} else {
+			line(2, "DATE 3 Mar 1850")
+		}
+		line(2, "PLAC "+r.Pick([]string{"Leeds", "Old Town"}))
+		if !alive {
+			line(1, "DEAT Y")
+		}
+	}
+	dupPtr := r.Pick([]string{"I1", "I1", "X", ""})
+	k := 2 + r.Intn(2)
+	for i := 0; i < k; i++ {
+		name := names[0]
+		if r.Bool() {
+			name = r.Pick(names)
+		}
+		indi(dupPtr, name, r.Chance(1, 3))
+	}
+	indi("I7", r.Pick(names), false)
+	indi("I8", r.Pick(names), r.Chance(1, 3))
+	if r.Bool() { // a second group
+		indi("I9", "Ann /Town/", false)
+		indi("I9", "Ann /Town/", r.Bool())
+	}
+	fam := func(ptr string) {
+		line(0, "@"+ptr+"@ FAM")
+		if dupPtr != "" {
+			line(1, "HUSB @"+dupPtr+"@")
+		}
+		line(1, "WIFE @I7@")
+		line(1, "CHIL @I8@")
+		if r.Bool() {
+			line(1, "CHIL @I9@")
+		}
+	}
+	fam("F1")
+	if r.Bool() {
+		fam(r.Pick([]string{"F1", "F2"}))
+	}
+	line(0, "@S1@ SOUR")
+	line(1, "TITL First")
+	if r.Chance(1, 3) { // two source records with one pointer
+		line(0, "@S1@ SOUR")
+		line(1, "TITL Second")
+	}
+	line(0, "TRLR")
+	return &c19Doc{Text: sb.String(), Mode: "duplicate-pointers"}
+}
+
 func c19RandOpts(r *Rand) c19Opts {
 	o := c19Opts{true, true, true, true, true, true, "show"}
 	if r.Chance(1, 3) { // a random subset of page groups
@@ -918,18 +985,24 @@ func c19IsFixedStem(stem string) bool {
 
 // c19Kinds says, through the public naming API, which kinds of page claim a file name.
 type c19Kinds struct {
-	source, place, individual map[string]bool
+	source, place, individual, dupSource map[string]bool
+	sourcePtr                            map[string]string
 }
 
 func c19KindsOf(s *c19Site) (k c19Kinds) {
-	k = c19Kinds{map[string]bool{}, map[string]bool{}, map[string]bool{}}
+	k = c19Kinds{map[string]bool{}, map[string]bool{}, map[string]bool{}, map[string]bool{}, map[string]string{}}
 	defer func() { recover() }()
 	doc, err := gedcom.NewDocumentFromString(s.doc.Text)
 	if err != nil {
 		return
 	}
 	for _, sn := range doc.Sources() {
-		k.source[html.PageSource(sn)] = true
+		page := html.PageSource(sn)
+		if k.source[page] && k.sourcePtr[page] == sn.Pointer() {
+			k.dupSource[page] = true // two SOUR records with the same pointer
+		}
+		k.source[page] = true
+		k.sourcePtr[page] = sn.Pointer()
 	}
 	pub := html.NewPublisher(doc, s.opts.real())
 	places := pub.Places()
@@ -970,6 +1043,8 @@ func c19JudgeNames(c *Ctx, s *c19Site, run c19Run, in map[string]interface{}) {
 		stem := strings.TrimSuffix(n, ".html")
 		key := ""
 		switch {
+		case kinds.dupSource[n] && count[n] == 2 && !kinds.individual[n] && !kinds.place[n] && !c19IsFixedStem(stem):
+			key = "dup:duplicate-source-pointer"
 		case c19IsFixedStem(stem):
 			key = "dup:key-equals-fixed-page"
 		case kinds.source[n]:
@@ -1289,6 +1364,9 @@ func init() {
 					o = c19Opts{true, true, true, true, true, true, "show"}
 				case i%5 == 4:
 					d = c19Generate(c.R, "plain", year)
+				case i%10 == 2:
+					d = c19GenerateDupPointers(c.R, year)
+					o = c19Opts{true, true, true, true, true, true, o.Living}
 				case i%10 == 8:
 					d = c19GenerateTies(c.R)
 					o = c19Opts{true, true, true, true, true, true, o.Living}
@@ -1348,7 +1426,7 @@ func init() {
 						job: &c19Job{Gedcom: g, Opts: s.opts, Jobs: jobs, Repeat: 2, Expect: expect},
 						env: []string{"GOMAXPROCS=" + strconv.Itoa([]int{1, 2, 4, 8}[(i+ji)%4])}})
 				}
-				if s.doc.Mode == "ties" {
+				if s.doc.Mode == "ties" || s.doc.Mode == "duplicate-pointers" {
 					// order inside a page that depends on map iteration shows only when runs are compared:
 					// five more processes, five publishes of the freshly decoded document in each
 					for k := 0; k < 5; k++ {
